@@ -113,6 +113,19 @@ Section WithOracle.
     - intro H. inversion H; subst. now apply tb_init_raises_only_lib in E.
   Qed.
 
+  (* clause 1 of C17, in every state: no group, or a group of one -> delivered at once, `groups` untouched *)
+  Lemma tbq_put_passthrough : forall st s g,
+    tbq_sentence_group uni s = Ok g ->
+    match g with None => True | Some (_, t, _) => t = 1 end ->
+    tbq_put uni st s = Ok (st, [[s]]).
+  Proof.
+    intros st s g Hg Hp. unfold tbq_sentence_group, tbq_put in *.
+    destruct (c_tag_block (sentence_common s)) as [raw|]; [|reflexivity].
+    destruct (tb_init uni raw) as [t|e]; simpl in *; [|discriminate].
+    inversion Hg; subst g. destruct (tb_group t) as [[[n tot] gid]|]; [|reflexivity].
+    subst tot. reflexivity.
+  Qed.
+
   (* ---------------------------------------------------------------- the step in terms of the group triple *)
   Definition grp_of (s : sentence) : option (Z * Z * Z) :=
     match tbq_sentence_group uni s with Ok g => g | Raise _ => None end.
@@ -280,3 +293,53 @@ Section WithOracle.
     tbq_run uni ss = tbqs_groups grp_of ss.
   Proof. intros ss Hp Hwf. apply tbq_run_from_spec; auto. apply inv_init. Qed.
 End WithOracle.
+
+(* ---------------------------------------------------------------- what the specification itself guarantees *)
+Section SpecFacts.
+  Context {A : Type} (grp : A -> option (Z * Z * Z)).
+
+  Lemma tbqs_instance_members : forall g rl i, tbqs_instance grp g rl = Some i ->
+    Forall (fun x => tbqs_member grp g x = true) i.
+  Proof.
+    intros g rl. induction rl as [|s r IH]; intros i H; simpl in H; [discriminate|].
+    destruct (tbqs_member grp g s) eqn:Em; [|auto].
+    destruct (tbqs_num grp s =? 1).
+    - inversion H; subst. repeat constructor. assumption.
+    - destruct (tbqs_instance grp g r) as [i'|]; [|discriminate]. inversion H; subst. constructor; auto.
+  Qed.
+
+  (* unmixed: whatever is delivered is the arriving ungrouped sentence alone, or sentences of one group id only *)
+  Lemma tbqs_step_unmixed : forall rp s l, In l (tbqs_step grp rp s) ->
+    l = [s] \/ exists g, Forall (fun x => tbqs_member grp g x = true) l.
+  Proof.
+    intros rp s l H. unfold tbqs_step in H.
+    destruct (grp s) as [[[n t] g]|]; [|destruct H as [<-|[]]; now left].
+    destruct (t =? 1); [destruct H as [<-|[]]; now left|].
+    destruct (tbqs_instance grp g (s :: rp)) as [i|] eqn:Ei; [|destruct H].
+    destruct (Z.of_nat (length i) =? t); [|destruct H].
+    destruct H as [<-|[]]. right. exists g. apply Forall_rev. eapply tbqs_instance_members; eauto.
+  Qed.
+
+  (* complete: a delivered group has as many sentences as its total says *)
+  Lemma tbqs_step_complete : forall rp s n t g, grp s = Some (n, t, g) -> t <> 1 ->
+    forall l, In l (tbqs_step grp rp s) -> Z.of_nat (length l) = t /\ In s l.
+  Proof.
+    intros rp s n t g Hg Ht l H. unfold tbqs_step in H. rewrite Hg in H.
+    destruct (t =? 1) eqn:E; [apply Z.eqb_eq in E; congruence|].
+    destruct (tbqs_instance grp g (s :: rp)) as [i|] eqn:Ei; [|destruct H].
+    destruct (Z.of_nat (length i) =? t) eqn:El; [|destruct H].
+    destruct H as [<-|[]]. rewrite rev_length. split; [now apply Z.eqb_eq|].
+    apply -> in_rev.
+    simpl in Ei. destruct (tbqs_member grp g s) eqn:Em.
+    - destruct (tbqs_num grp s =? 1); [inversion Ei; now left|].
+      destruct (tbqs_instance grp g rp); inversion Ei. now left.
+    - exfalso. unfold tbqs_member in Em. rewrite Hg, E, Z.eqb_refl in Em. discriminate.
+  Qed.
+End SpecFacts.
+
+(* ---------------------------------------------------------------- concrete sentences for the non-vacuity examples *)
+Definition ex_sentence (idx : Z) (tb : option (list Z)) : sentence :=
+  SAis (mkAis (mkCommon [33; 48 + idx] [33] [] [] 0 0 true [] tb) 1 1 None [65] [] [] 1 None).
+(* "g:<n>-<t>-<g>*00" for one-digit numbers *)
+Definition ex_group_tb (n t g : Z) : list Z := [103; 58; 48 + n; 45; 48 + t; 45; 48 + g; 42; 48; 48].
+Definition ex_uni : Z -> list Z -> option Z := fun _ _ => None.
